@@ -948,11 +948,11 @@ Qed.
 
 (* ------------------------------------------------------------------ new work and the explicit budget *)
 
-Lemma QOK_init : forall U g lk qr kd nd kn0 dists seeds,
+Lemma QOK_init : forall U g lk qr kd nd kn0 kp dists seeds,
   ~ In (g_local g) seeds -> (forall p, In p seeds -> In p U) ->
-  QOK U g (QLookup lk qr (lcfg g kd nd kn0 dists) (L.init (lcfg g kd nd kn0 dists) seeds)).
+  QOK U g (QLookup lk qr (lcfg g kd nd kn0 kp dists) (L.init (lcfg g kd nd kn0 kp dists) seeds)).
 Proof.
-  intros U g lk qr kd nd kn0 dists seeds Hl Hu. cbn [QOK].
+  intros U g lk qr kd nd kn0 kp dists seeds Hl Hu. cbn [QOK].
   split; [apply LI1_init; exact Hl |]. split; [apply LP.init_cands_in; exact Hu |].
   split; [reflexivity |]. split; [unfold L.init; cbn [L.resps length]; lia | reflexivity].
 Qed.
@@ -964,18 +964,18 @@ Lemma step_input_M : forall U g s e,
 Proof.
   intros U g s e HB Hu Hc Hi. destruct e; try discriminate Hi; cbn [step fst budget1 ev_in_U cmd_ok] in *.
   - unfold on_cmd.
-    assert (St : forall lk qr kd nd kn0,
-              BE U g (start_lookup g s q lk qr (lcfg g kd nd kn0 dists) seeds) /\
-              (M U g (start_lookup g s q lk qr (lcfg g kd nd kn0 dists) seeds) <=
+    assert (St : forall lk qr kd nd kn0 kp,
+              BE U g (start_lookup g s q lk qr (lcfg g kd nd kn0 kp dists) seeds) /\
+              (M U g (start_lookup g s q lk qr (lcfg g kd nd kn0 kp dists) seeds) <=
                M U g s + (10 * length U + 5 * N.to_nat (g_k g) + 2))%nat).
     { intros. unfold start_lookup.
-      destruct (BE_aset U g s q _ HB (QOK_init U g lk qr kd nd kn0 dists seeds Hc Hu)) as [B E]. split; [exact B |].
-      set (s' := w_eng s (aset q (QLookup lk qr (lcfg g kd nd kn0 dists) (L.init (lcfg g kd nd kn0 dists) seeds)) (eng s))) in *.
+      destruct (BE_aset U g s q _ HB (QOK_init U g lk qr kd nd kn0 kp dists seeds Hc Hu)) as [B E]. split; [exact B |].
+      set (s' := w_eng s (aset q (QLookup lk qr (lcfg g kd nd kn0 kp dists) (L.init (lcfg g kd nd kn0 kp dists) seeds)) (eng s))) in *.
       assert (G0 : mG s' = mG s) by reflexivity.
-      assert (R0 : length (L.recq (L.init (lcfg g kd nd kn0 dists) seeds)) = 0%nat) by reflexivity.
-      unfold M. cbn [qW] in E. rewrite R0 in E. pose proof (LP.mu_init (lcfg g kd nd kn0 dists) U seeds) as Mi.
+      assert (R0 : length (L.recq (L.init (lcfg g kd nd kn0 kp dists) seeds)) = 0%nat) by reflexivity.
+      unfold M. cbn [qW] in E. rewrite R0 in E. pose proof (LP.mu_init (lcfg g kd nd kn0 kp dists) U seeds) as Mi.
       unfold kn in E. lia. }
-    destruct c as [| qr | qr | qr local | | qr]; cbn [fst]; try apply St.
+    destruct c as [| qr | qr | qr local | kp0 | qr]; cbn [fst]; try apply St.
     destruct qr; destruct local; cbn [fst]; first [apply St | split; [exact HB | lia]].
   - destruct (BE_aset U g s q (QToPeers qr ps) HB I) as [B E]. split; [exact B |]. unfold M. cbn [qW] in E.
     assert (G0 : mG (w_eng s (aset q (QToPeers qr ps) (eng s))) = mG s) by reflexivity. lia.
